@@ -46,6 +46,10 @@ def subst_event(e, sub):
     return {k: (subst(v, sub) if k in ("x", "args", "recv", "init") else v) for k, v in e.items()}
 
 
+# coroutine types of corpus/coro.cpp whose promise takes co_yield (overloaded and templated yield_value included)
+CORPUS_YIELDING = ("cor::generator<", "cor::gen2<")
+
+
 def handler_body(tu, entry):
     """The function whose body is the handler coroutine: `call` itself, or - when `call` does nothing but return
     the result of one library coroutine - that coroutine, with its parameters bound to the forwarded arguments.
@@ -109,6 +113,16 @@ def c20b(ctx, tu):
         elif awaits:
             bad = "the handler awaits something of its own"
         can_yield = "yield_value" in str([e for _, e in evs])
+        # the coroutine type of this instantiation and whether its promise accepts co_yield: a yield_value member of
+        # the promise class in the facts, or - for promises whose yield_value is only a template / an overload set
+        # that nothing instantiates when the loop is missing - the corpus's own table of yielding types
+        m_sig = re.match(r"trompeloeil::co_return_handler_t<(.*?) \(", entry.q)
+        rtype = m_sig.group(1) if m_sig else ""
+        promise_yields = any(f2.q.startswith(rtype + "::promise_type::yield_value") for f2 in tu.fns.values()) or \
+            rtype.startswith(CORPUS_YIELDING)
+        if bad is None and rtype and promise_yields and not yields:
+            bad = "the promise of %s accepts co_yield, but this handler has no yield loop: every CO_YIELD clause of " \
+                  "such a function is silently dropped" % rtype
         if bad is None and yields:
             if len(yields) != 1:
                 bad = "there must be a single co_yield site, inside the loop over the yield list"
